@@ -46,6 +46,9 @@ def floors(tier):
 def read_wav(fn):
     wf = wave.open(fn, "r")
     p = wf.getparams()
+    if p.nframes > 20000:
+        wf.close()
+        raise ValueError("recording too large for the list model")
     raw = wf.readframes(p.nframes)
     wf.close()
     return p, raw
@@ -53,6 +56,8 @@ def read_wav(fn):
 
 def file_state(af):
     p = af.getparams()
+    if p.nframes > 20000:
+        raise ValueError("recording too large for the list model")
     pos = af.tell()
     af.setpos(0)
     raw = af.readframes(p.nframes)
